@@ -21,7 +21,7 @@ SHEET_CELLS = G.SHEET_CELLS
 def plan(tier, seed):
     scs = base_scenarios(tier, seed, hints=False)
     scs += [dict(large=o) for o in (0, 1)]
-    scs += [dict(sheet=ci, atol=at, height=h) for ci in (0, 1) for at in (0.2, 0.05) for h in (0.5, 1.2)]
+    scs += [sc for sc in special_scenarios(tier) if sc['special'] != 'large']
     return dict(scenarios=scs, exhaustive=True, chunk=40, menus=menus(tier, seed),
                 bounds=dict(draw_deviation_bound=draw_bound(tier), executions_cap_per_scenario=60 if tier == 'quick' else 300, reference_images='-2..2 per axis'),
                 rule='one scenario per alphabet tuple, every draw answer within the bound inside; non-trivial = the reference finds at least one IN group and the scenario has a decoy, several copies or a boundary-crossing placement',
@@ -43,32 +43,12 @@ def run(sc, ctx):
             out['violations'].append(viol('found', 'large-structure', 'structure of %d atoms (5 copies of a C-O-H pattern, every other atom is He): reported %r, the occurrences are %r' % (len(el), [tuple(int(i) for i in t) for t in res], exp), sc))
         out['outcomes']['large structure'] = 1; out['nontrivial'] = 1
         return out
-    if 'sheet' in sc:
-        # 31-atom chiral pattern, one proper copy and one mirror-image copy across a cell corner: the mirror image differs in one
-        # atom only (by 2 x height), its rms displacement is 2 x height / sqrt(31)
-        cell = SHEET_CELLS[sc['sheet']]; atol = sc['atol']
-        pel, pp = G.sheet_pattern(height=sc['height'])
-        el, pos, proper, mirror = G.sheet_structure(cell, G.generic_rotations(ctx['seed'], 3)[1], (0.5, 0.5, 0.5), (0.02, 0.97, 0.01), height=sc['height'])
-        groups = ref_match(pos, el, cell, pp, pel, atol, cconst(pp))
-        if groups.get(tuple(sorted(proper)), ('?',))[0] != 'IN' or groups.get(tuple(sorted(mirror)), ('OUT',))[0] != 'OUT':
-            raise HarnessError('generator: sheet copies rated %r' % (groups,))
-        s = Atoms(elements=el, positions=pos, cell=cell); p = Atoms(elements=pel, positions=pp + np.array([3.3, -1.2, 0.7]))
-        for answers, (res, err) in explorer(ctx).explore(lambda: call(find_pattern_in_structure, s, p, atol=atol), bound=draw_bound(ctx['tier']), cap=30):
-            out['evals'] += 1; out['compared'] += 1
-            if err:
-                out['violations'].append(viol('no-result', 'sheet-exc:' + exc_sig(err), '31-atom pattern: find raised %r' % (err[0],), sc)); continue
-            rep = {tuple(sorted(int(i) for i in t)) for t in res}
-            if tuple(sorted(proper)) not in rep:
-                out['violations'].append(viol('found', 'sheet-missed', 'the exact rotated copy of the 31-atom pattern is not reported (atol %g, draws %r)' % (atol, tuple(answers)), sc))
-            if rep - {tuple(sorted(proper))}:
-                out['violations'].append(viol('nothing-else', 'sheet-spurious', 'reported %d group(s) besides the proper copy of the 31-atom chiral pattern; its mirror image has one atom %.2g A (= %.1f x atol) off the best proper fit of the other 30 (rms over 4-atom subsets >= %.2g) (atol %g, draws %r)' % (
-                    len(rep) - 1, 2 * sc['height'], 2 * sc['height'] / atol, subset_rmsd_bound(pp, pp * [1, 1, -1]), atol, tuple(answers)), sc))
-        out['outcomes']['sheet'] = 1; out['nontrivial'] = 1
-        return out
     m = materialise(sc, ctx)
     spec = m['spec']; atol = sc['atol']
     groups = ref_match(spec['pos'], spec['el'], m['cell'], spec['pp'], spec['pel'], atol, cconst(spec['pp']))
     IN = {g for g, v in groups.items() if v[0] == 'IN'}; GR = {g for g, v in groups.items() if v[0] == 'GRAY'}
+    if sc.get('special') == 'sheet' and [g for g, v in groups.items() if v[0] != 'OUT'] != [tuple(sorted(spec['planted'][0]))]:
+        raise HarnessError('generator: the mirror image of the sheet is not rated OUT: %r' % ({g[:2]: v for g, v in groups.items()},))
     for pl in spec['planted']:
         if tuple(sorted(pl)) not in IN:
             raise HarnessError('generator: planted copy %r is not IN (%r) in %r' % (pl, groups.get(tuple(sorted(pl))), sc))
